@@ -530,3 +530,61 @@ Section Serial.
       destruct (inv_tasks _ _ _ HI k t Ek) as [_ Hb]. rewrite Hb, (Hnobg k t Ek). reflexivity.
   Qed.
 End Serial.
+
+(* ------------------------------------------------------------------ the discipline alone is not enough *)
+(* A handler that keeps the discipline but splits a read-modify-write over TWO critical sections is not atomic:
+   message 0 reads the shared counter in its first section and writes counter+1 in its second one; message 1 adds 10
+   in between. The final counter is 1; both serial orders give 11. *)
+From Coq Require Import Permutation.
+
+Definition cx_hs : list handler :=
+  [ mkHandler (nm "split") (nm "Split") Request [Lock; Acc Analysis Rd; Unlock; Lock; Acc Analysis Wr; Unlock];
+    mkHandler (nm "add10") (nm "Add10") Request [Lock; Acc Analysis Wr; Unlock] ].
+Definition cx_exec (k pc : nat) (lc sh : nat) : nat * nat :=
+  match k, pc with
+  | 0, 1 => (sh, sh)            (* split, first section: remember the counter *)
+  | 0, 4 => (lc, S lc)          (* split, second section: write remembered value + 1 *)
+  | 1, 1 => (lc, 10 + sh)       (* add10 *)
+  | _, _ => (lc, sh)
+  end.
+Definition cx_msgs : list msg := [mkMsg 0 false; mkMsg 1 false].
+Definition cx_labels : list label :=
+  [LDispatch; LStart 0; LDispatch; LStart 1; LStep 0; LStep 0; LStep 0; LStep 1; LStep 1; LStep 1; LFinish 1;
+   LStep 0; LStep 0; LStep 0; LFinish 0].
+
+Lemma cx_locked : forallb locked (cx_hs ++ []) = true.
+Proof. vm_compute. reflexivity. Qed.
+
+Lemma cx_run :
+  exists s locs, drun cx_hs [] 4 nat nat cx_exec (fun _ => 0) cx_labels (dinit nat nat cx_msgs 0) = Some (s, 1, locs) /\
+                 complete s = true.
+Proof. eexists. eexists. split; [vm_compute; reflexivity|reflexivity]. Qed.
+
+Lemma perm2 (order : list nat) : Permutation order [0; 1] -> order = [0; 1] \/ order = [1; 0].
+Proof.
+  intros H. pose proof (Permutation_length H) as Hl.
+  destruct order as [|a [|b [|c r]]]; simpl in Hl; try discriminate.
+  assert (Ha : In a [0; 1]) by (eapply Permutation_in; [exact H|left; reflexivity]).
+  assert (Hb : In b [0; 1]) by (eapply Permutation_in; [exact H|right; left; reflexivity]).
+  assert (Hnd : NoDup [a; b]) by (eapply Permutation_NoDup; [apply Permutation_sym; exact H|repeat constructor; simpl; intuition discriminate]).
+  inversion Hnd as [|x l Hnin _]; subst. simpl in Hnin.
+  destruct Ha as [<-|[<-|[]]]; destruct Hb as [<-|[<-|[]]]; auto; exfalso; apply Hnin; auto.
+Qed.
+
+Lemma cx_serial_orders s order :
+  Permutation order [0; 1] ->
+  fst (serialL nat nat cx_exec (fun _ => 0)
+         (fun k => match k with 0 => hbody (nth 0 cx_hs (mkHandler [] [] Request [])) | _ => hbody (nth 1 cx_hs (mkHandler [] [] Request [])) end)
+         order s) = 11 + s.
+Proof. intros H. destruct (perm2 order H) as [->| ->]; reflexivity. Qed.
+
+Lemma cx_refutes :
+  exists s sh locs,
+    drun cx_hs [] 4 nat nat cx_exec (fun _ => 0) cx_labels (dinit nat nat cx_msgs 0) = Some (s, sh, locs) /\
+    complete s = true /\
+    forall order, Permutation order [0; 1] ->
+                  fst (serialL nat nat cx_exec (fun _ => 0) (bodies_of (s_pool s)) order 0) <> sh.
+Proof.
+  eexists. eexists. eexists. split; [vm_compute; reflexivity|]. split; [reflexivity|].
+  intros order H. destruct (perm2 order H) as [->| ->]; vm_compute; discriminate.
+Qed.
